@@ -51,6 +51,9 @@ pub fn run(id: &str, tier: Tier, seed: u64) -> Option<i32> {
 }
 
 pub fn replay(id: &str, path: &std::path::Path, strict: bool) -> Option<i32> {
+	if id == "C17" {
+		return Some(c17::replay(path));
+	}
 	dispatch!(id, replay_p, path, strict)
 }
 
